@@ -110,7 +110,9 @@ def check_droplet_tracker(ctx: Ctx):
                "from analysing the stored fields afterwards (solvers update the field in place, so a remembered array compares equal to itself and every later frame repeats an old result)")
     # self.data is the EmulsionTimeCourse given or a new one
     d = stored.get("data")
-    okd = d is not None and U(d.value) in ("EmulsionTimeCourse()", "emulsion_timecourse")
+    from ..astutil import ifexp_cases
+
+    okd = d is not None and all(U(v_) in ("EmulsionTimeCourse()", "emulsion_timecourse") for _c, v_ in ifexp_cases(d.value))
     ctx.decide(okd, "PIPE", f"{init.qualname}:data", (init, d) if d is not None else init, "results go to an EmulsionTimeCourse", "tracker data is not an EmulsionTimeCourse")
     # finalize
     f = m.func(f"{TRK}.DropletTracker.finalize")
